@@ -92,7 +92,7 @@ def other_case(draw):
     a = draw(gen.array_spec(min_dims=0, max_dims=3, min_size=1, max_size=3, vks="fi"))
     a["base"] = draw(st.integers(2, 6))
     op = draw(st.sampled_from(list(OPS)))
-    kind = draw(st.sampled_from(["pyint", "pyfloat", "npint", "npfloat", "ndarray-same", "ndarray-bcast", "0d-array"]))
+    kind = draw(st.sampled_from(["pyint", "pyfloat", "npint", "npfloat", "ndarray-same", "ndarray-bcast", "ndarray-column", "ndarray-singleton-first", "0d-array"]))
     if op == "**":
         n = int(np.prod([len(l) for l in a["labels"]])) if a["labels"] else 1
         ints = draw(st.booleans())
@@ -258,6 +258,10 @@ def run_other(case):
         o = np.array(float(s))
     elif kind == "ndarray-same":
         o = (np.arange(vals.size, dtype=float).reshape(vals.shape) % 3) + 2.0
+    elif kind in ("ndarray-column", "ndarray-singleton-first"):
+        # NumPy broadcasting of a right operand with a length-1 dimension: the last one (a column) or the first one
+        sh = (vals.shape[:-1] + (1,) if kind == "ndarray-column" else (1,) + vals.shape[1:]) if vals.ndim else ()
+        o = (np.arange(int(np.prod(sh)) if sh else 1, dtype=float).reshape(sh) % 5) + 2.0
     else:
         sh = vals.shape[1:] if vals.ndim > 1 else vals.shape
         o = (np.arange(int(np.prod(sh)) if sh else 1, dtype=float).reshape(sh) % 3) + 2.0
